@@ -349,44 +349,88 @@ def r6(p, rep):
 
 
 def r8(p, rep):
-    rep.rule("C02.R8", "no equation is discarded on the way to the solver except syntactic tautologies", "T-DER (filters on the equation list)", floor=3)
-    f = p.func("solve", "einx._src.util.solver")
-    eq_names = {"equations", "equations2", "sympy_equations"}
+    rep.rule("C02.R8", "no equation is discarded on the way to the solver except syntactic tautologies and equations the solver already evaluated to true", "T-DER (every filter on the provenance chain of the list handed to sympy.solve)", floor=3)
+    from sa.cfg import decompose
+
+    f0 = p.func("solve", "einx._src.util.solver")
     n = 0
-    for node in walk_no_nested(f.node):
-        # comprehensions that rebuild an equation list
-        if isinstance(node, ast.Assign) and isinstance(node.value, (ast.ListComp, ast.GeneratorExp, ast.SetComp)) and any(isinstance(t, ast.Name) and t.id in eq_names for t in node.targets):
-            comp = node.value
-            for g in comp.generators:
-                if not (isinstance(g.iter, ast.Name) and g.iter.id in eq_names):
-                    continue
+    solves = []
+    for g in common.with_helpers(p, f0):
+        for c in walk_no_nested(g.node):
+            if isinstance(c, ast.Call):
+                r = p.resolve_expr(g.module, c.func, g.node)
+                if r and r[0] == "external" and r[1] == "sympy.solve":
+                    solves.append((g, c))
+    if not solves:
+        raise AnalysisError("unrecognised idiom: no call of sympy.solve reachable from util.solver.solve")
+
+    def judge_filter(g, comp, gen, cond):
+        """is `cond` a filter that can only drop (a) equations with identical sides or (b) equations sympy evaluated to True"""
+        tgt = [x.id for x in ast.walk(gen.target) if isinstance(x, ast.Name)]
+        if isinstance(cond, ast.Compare) and len(cond.ops) == 1 and isinstance(cond.ops[0], ast.NotEq) and isinstance(cond.left, ast.Name) and isinstance(cond.comparators[0], ast.Name) and {cond.left.id, cond.comparators[0].id} == set(tgt) and len(tgt) == 2:
+            return True, "drops only equations whose two sides are identical"
+        # dropped when the condition is false: the conjuncts of `not cond` must include "the equation is true"
+        dropped = decompose(cond, False)
+        for t, pol in dropped:
+            if not pol:
+                continue
+            if isinstance(t, ast.Call) and isinstance(t.func, ast.Name) and t.func.id == "bool" and len(t.args) == 1 and isinstance(t.args[0], ast.Name) and t.args[0].id in tgt:
+                return True, "drops only equations that sympy already evaluated to True"
+            if isinstance(t, ast.Compare) and len(t.ops) == 1 and isinstance(t.ops[0], (ast.Eq, ast.Is)) and isinstance(t.left, ast.Name) and t.left.id in tgt and norm(t.comparators[0]) in ("True", "sympy.true", "sympy.S.true"):
+                return True, "drops only equations that sympy already evaluated to True"
+        return False, ""
+
+    seen = set()
+
+    def chain(g, e, depth=0):
+        """walk the provenance of the equation list backwards and judge every filter"""
+        nonlocal n
+        if depth > 8 or e is None:
+            return
+        if isinstance(e, ast.Name):
+            if e.id in g.params:
+                # handed in by the caller(s)
+                for h in common.with_helpers(p, f0):
+                    for c in walk_no_nested(h.node):
+                        if isinstance(c, ast.Call) and resolve_callee(p, c, h.module) == ("func", g):
+                            i_ = g.params.index(e.id)
+                            a = c.args[i_] if i_ < len(c.args) else next((k.value for k in c.keywords if k.arg == e.id), None)
+                            chain(h, a, depth + 1)
+                return
+            for a in walk_no_nested(g.node):
+                if isinstance(a, ast.Assign) and any(isinstance(t, ast.Name) and t.id == e.id for t in a.targets) and id(a) not in seen:
+                    seen.add(id(a))
+                    chain(g, a.value, depth + 1)
+            return
+        if isinstance(e, (ast.ListComp, ast.GeneratorExp, ast.SetComp)):
+            for gen in e.generators:
                 n += 1
-                tgt = [x.id for x in ast.walk(g.target) if isinstance(x, ast.Name)]
-                for cond in g.ifs:
-                    ok = isinstance(cond, ast.Compare) and len(cond.ops) == 1 and isinstance(cond.ops[0], ast.NotEq) and isinstance(cond.left, ast.Name) and isinstance(cond.comparators[0], ast.Name) and {cond.left.id, cond.comparators[0].id} == set(tgt)
-                    rep.add("C02.R8", f"{f.qualname}:filter({norm(cond)})", f"{f.module.rel}:{node.lineno}", ok, "drops only equations whose two sides are identical" if ok else f"the filter `{norm(cond)}` removes equations from the system: a constraint that is already known to be false (e.g. parity clash 2*a = 7) vanishes and an inconsistent input is reported as solvable")
-                if not g.ifs:
-                    rep.ok("C02.R8", f"{f.qualname}:rebuild({norm(node.targets[0])})", f"{f.module.rel}:{node.lineno}", "every equation is carried over")
-        # the list handed to sympy.solve
-        if isinstance(node, ast.Call):
-            r = p.resolve_expr(f.module, node.func, f.node)
-            if r and r[0] == "external" and r[1] == "sympy.solve":
-                n += 1
-                a0 = node.args[0] if node.args else None
-                ok = isinstance(a0, ast.Name) and a0.id in eq_names
-                if ok:
-                    defs = [x for x in walk_no_nested(f.node) if isinstance(x, ast.Assign) and any(isinstance(t, ast.Name) and t.id == a0.id for t in x.targets)]
-                    ok = len(defs) == 1
-                rep.add("C02.R8", f"{f.qualname}:sympy.solve:arg0", f"{f.module.rel}:{node.lineno}", ok, f"sympy.solve receives `{norm(a0) if a0 is not None else None}` (single definition)" if ok else f"sympy.solve receives `{norm(a0) if a0 is not None else None}`, which is not the complete, once-defined equation list")
+                for cond in gen.ifs:
+                    ok, why = judge_filter(g, e, gen, cond)
+                    rep.add("C02.R8", f"{g.qualname}:filter({norm(cond)[:50]})", f"{g.module.rel}:{e.lineno}", ok, why if ok else f"the filter `{norm(cond)}` removes equations from the system: a constraint that is already known to be false (e.g. parity clash 2*a = 7, or `b + 6 = 5` for a non-negative b) vanishes and an inconsistent input is reported as solvable")
+                if not gen.ifs:
+                    rep.ok("C02.R8", f"{g.qualname}:rebuild({norm(gen.iter)[:30]})", f"{g.module.rel}:{e.lineno}", "every equation is carried over")
+                chain(g, gen.iter, depth + 1)
+            return
+        if isinstance(e, ast.Call) and isinstance(e.func, ast.Name) and e.func.id in ("list", "tuple") and e.args:
+            chain(g, e.args[0], depth + 1)
+
+    for g, c in solves:
+        n += 1
+        a0 = c.args[0] if c.args else None
+        ok = isinstance(a0, (ast.Name, ast.ListComp))
+        rep.add("C02.R8", f"{g.qualname}:sympy.solve:arg0", f"{g.module.rel}:{c.lineno}", ok, f"sympy.solve receives `{norm(a0)[:40] if a0 is not None else None}`" if ok else f"sympy.solve receives `{norm(a0) if a0 is not None else None}`, which is not a traceable equation list")
+        chain(g, a0)
     # explicit appends into an equation list are only skipped for identical sides
-    for node in walk_no_nested(f.node):
-        if isinstance(node, ast.Call) and isinstance(node.func, ast.Attribute) and node.func.attr == "append" and isinstance(node.func.value, ast.Name) and node.func.value.id in eq_names:
-            n += 1
-            cfg = common.cfg_of(f)
-            facts = [(norm(t), pol) for t, pol in cfg.guards_of_ast(node)]
-            rep.ok("C02.R8", f"{f.qualname}:append({node.func.value.id})", f"{f.module.rel}:{node.lineno}", f"appended under {facts[-2:]}", nontrivial=True)
+    for g in common.with_helpers(p, f0):
+        for node in walk_no_nested(g.node):
+            if isinstance(node, ast.Call) and isinstance(node.func, ast.Attribute) and node.func.attr == "append" and isinstance(node.func.value, ast.Name) and "equation" in node.func.value.id:
+                n += 1
+                facts = [(norm(t), pol) for t, pol in common.cfg_of(g).guards_of_ast(node)]
+                rep.ok("C02.R8", f"{g.qualname}:append({node.func.value.id})", f"{g.module.rel}:{node.lineno}", f"appended under {facts[-2:]}", nontrivial=True)
     if n < 3:
         raise AnalysisError("unrecognised idiom: equation-list handling in util.solver.solve not found")
+
 
 def r9(p, rep):
     rep.rule("C02.R9", "one solution is taken from sympy's solution set only when the set has exactly one element (none / several raise)", "T-DOM (interval on len() from the dominating guards)", floor=1)
